@@ -6,6 +6,16 @@
 //!    backlinks as (owner, line) sets, outline paths as heading texts, search results),
 //!    once from the incrementally updated database and once from a database freshly built
 //!    from the current texts (C04 compares the two).
+//!
+//! Patch graphs (C20, sub-properties 4-7 and stages 10-11): after the last step the harness builds
+//! patch graphs the way the server does - `graph.new_patch()` + `build_key_from_iter(key,
+//! TreeIter::new(&tree))` (server.rs:277-279, 461-481; action.rs / command.rs through `context.patch()`)
+//! - from (1) the collected tree of every note, (2) for every block reference of a note to an
+//! existing note, the tree with the reference replaced by the referenced note's collected tree
+//! (`Tree::replace`, the tree of "Inline list", action.rs:772-774), (3) the same with the referenced
+//! note's blocks wrapped into a quote ("Inline quote", action.rs:615-623), (4) the hand-made trees
+//! of the input (`"trees"`, the JSON trees of c17.rs), each under catch_unwind, and dumps the patch
+//! arena (every slot) and its key map.
 use crate::dump;
 use crate::gal::*;
 use crate::gen;
@@ -14,7 +24,8 @@ use crate::rng::Rng;
 use liwe::database::Database;
 use liwe::graph::{Graph, GraphContext};
 use liwe::model::config::MarkdownOptions;
-use liwe::model::node::NodePointer;
+use liwe::model::node::{Node, NodePointer};
+use liwe::model::tree::{Tree, TreeIter};
 use liwe::model::Key;
 use serde_json::{json, Value};
 use std::collections::BTreeMap;
@@ -139,6 +150,80 @@ fn graph_dump(graph: &Graph, texts: &BTreeMap<String, String>, options: &Markdow
 
 pub const FORMAT_OP: &str = "\u{1}FORMAT";
 
+// ------------------------------------------------------------------ patch graphs
+
+/// at most this many block references of one note are inlined
+const MAX_INLINED: usize = 3;
+
+/// `graph.new_patch()` + `build_key_from_iter(key, TreeIter::new(tree))`; the patch arena (every slot)
+/// and the patch's key map, or the panic message of the builder.  `src` says how the tree was made
+/// (Check_Patch.patch_src): the trees made from collected trees are not printed again, the Coq side
+/// rebuilds them from the collected trees of the last state (TreeOps.replace = Tree::replace).
+fn patch_obs(graph: &Graph, src: String, key: &Key, tree: &Tree) -> String {
+    let built = catch_unwind(AssertUnwindSafe(|| {
+        let mut patch = graph.new_patch();
+        patch.build_key_from_iter(key, TreeIter::new(tree));
+        patch
+    }))
+    .map_err(panic_msg);
+    let (arena, kmap) = match &built {
+        Ok(p) => {
+            let kmap: Vec<String> = keys_sorted(p).iter().map(|k| gpair(&gstr(&k.to_string()), &gn(p.get_node_id(k).unwrap_or(0)))).collect();
+            (Ok(dump::arena(p)), glist(&kmap))
+        }
+        Err(e) => (Err(e.clone()), "[]".to_string()),
+    };
+    gapp("PO", &[gstr(&key.to_string()), src, gres(arena), kmap])
+}
+
+/// the block references of a tree that carry an id: (node id, key)
+fn block_refs(t: &Tree, out: &mut Vec<(u64, Key)>) {
+    if let (Some(id), Node::Reference(r)) = (t.id, &t.node) {
+        out.push((id, r.key.clone()));
+    }
+    for c in &t.children {
+        block_refs(c, out);
+    }
+}
+
+fn patches(graph: &Graph, v: &Value) -> Vec<String> {
+    let mut out = vec![];
+    let mut quoted = false;
+    for key in keys_sorted(graph) {
+        let tree = match guard(|| graph.collect(&key)) {
+            Ok(t) => t,
+            Err(_) => continue, // stage 4 of the state and C03 own a panicking collect
+        };
+        out.push(patch_obs(graph, "PS_collected".to_string(), &key, &tree));
+        let mut refs = vec![];
+        block_refs(&tree, &mut refs);
+        for (id, rkey) in refs.into_iter().filter(|(_, k)| graph.get_node_id(k).is_some()).take(MAX_INLINED) {
+            let inl = match guard(|| graph.collect(&rkey)) {
+                Ok(t) => t,
+                Err(_) => continue,
+            };
+            // "Inline list" (action.rs:772-774)
+            if let Ok(t2) = guard(|| tree.replace(id, &inl)) {
+                out.push(patch_obs(graph, gapp("PS_inlined", &[gn(id), gstr(&rkey.to_string())]), &key, &t2));
+            }
+            // "Inline quote" (action.rs:615-623): once per history
+            if !quoted {
+                quoted = true;
+                let quote = Tree { id: None, node: Node::Quote(), children: inl.children.clone() };
+                if let Ok(t3) = guard(|| tree.replace(id, &quote)) {
+                    out.push(patch_obs(graph, gapp("PS_quoted", &[gn(id), gstr(&rkey.to_string())]), &key, &t3));
+                }
+            }
+        }
+    }
+    for p in v["trees"].as_array().cloned().unwrap_or_default() {
+        let key: Key = p[0].as_str().unwrap_or("t").to_string().into();
+        let tree = crate::c17::jtree(&p[1]);
+        out.push(patch_obs(graph, gapp("PS_tree", &[dump::tree(&tree)]), &key, &tree));
+    }
+    out
+}
+
 pub fn execute(v: &Value) -> String {
     let ext = v["ext"].as_str().unwrap_or("");
     let options = MarkdownOptions { refs_extension: ext.to_string() };
@@ -159,13 +244,15 @@ pub fn execute(v: &Value) -> String {
         Ok(db) => db,
         Err(_) => {
             let notes_in: Vec<String> = sorted.iter().map(|(n, t)| note_in_term(n, t, None, &options)).collect();
-            return gapp("HC", &[gstr(ext), glist(&notes_in), "(Panic \"import\")".into(), "[]".into(), "[]".into(), "[]".into(), "[]".into(), "[]".into()]);
+            return gapp("HC", &[gstr(ext), glist(&notes_in), "(Panic \"import\")".into(), "[]".into(), "[]".into(), "[]".into(), "[]".into(), "[]".into(), "[]".into()]);
         }
     };
     let notes_in: Vec<String> = sorted.iter().map(|(n, t)| note_in_term(n, t, None, &options)).collect();
     let (arena0, keys0, titles0, hn0, tables0) = graph_dump(db.graph(), &texts, &options);
 
     let mut steps = vec![];
+    // the graph of the last state that was dumped: what the patch graphs are built from
+    let mut last: Graph = db.graph().clone();
     for (name, text) in &ops {
         let key = Key::name(name);
         // the marker op "format": the note is re-submitted as the server itself writes it (what an editor
@@ -204,6 +291,7 @@ pub fn execute(v: &Value) -> String {
                 Err(_) => "None".to_string(),
             };
             steps.push(gapp("ST", &[step_in, arena, kmap, titles, hn, tables, "None".into(), fresh]));
+            last = g2;
             break;
         }
         texts.insert(key.to_string(), text.clone());
@@ -215,8 +303,10 @@ pub fn execute(v: &Value) -> String {
             Err(_) => "None".to_string(),
         };
         steps.push(gapp("ST", &[step_in, arena, kmap, titles, hn, tables, format!("(Some {})", inc), fresh]));
+        last = db.graph().clone();
     }
-    gapp("HC", &[gstr(ext), glist(&notes_in), arena0, keys0, titles0, hn0, tables0, glist(&steps)])
+    let pos = patches(&last, v);
+    gapp("HC", &[gstr(ext), glist(&notes_in), arena0, keys0, titles0, hn0, tables0, glist(&steps), glist(&pos)])
 }
 
 // ------------------------------------------------------------------ generator
@@ -293,7 +383,55 @@ pub fn generate(rng: &mut Rng, thorough: bool, n_quick: usize) -> Vec<Value> {
         out.push(json!({"ext": ext, "kind": if hostile { "hostile" } else if nested { "nested" } else { "flat" },
                         "notes": lib.iter().map(|n| json!([n.name, n.text])).collect::<Vec<_>>(), "ops": ops}));
     }
+    // hand-made trees for the patch-graph stage: two per second history (drawn after the histories, so
+    // that the histories are the stream they were before): the tree shapes of c17.rs (valid, leaves with
+    // children, inner Document nodes, roots that are not documents) and trees as an inline refactoring
+    // builds them (a Document node as a later sibling of a container / leaf)
+    for (i, h) in out.iter_mut().enumerate() {
+        if i % 2 == 0 {
+            let mode = crate::c17::TREE_MODES[(i / 2) % crate::c17::TREE_MODES.len()];
+            let t1 = crate::c17::gen_tree(rng, mode);
+            let t2 = inlined_tree(rng);
+            h["trees"] = json!([["t", t1], [if i % 4 == 0 { "d/t" } else { "t" }, t2]]);
+        }
+    }
     out
+}
+
+/// a tree of the shape `collect(key).replace(reference_id, &collect(inline_key))` has: a Document node
+/// among the children of a section / list item / quote, after 0-2 siblings (containers with and
+/// without children, leaves) and before 0-1 siblings
+fn inlined_tree(rng: &mut Rng) -> Value {
+    use crate::c17::jnode;
+    let mut count = 0;
+    let mut leaf = |what: &str| { count += 1; jnode("leaf", &format!("{}{}", what, count), vec![]) };
+    let mut before = vec![];
+    for _ in 0..rng.range(0, 2) {
+        let b = match rng.below(6) {
+            0 => leaf("p"),
+            1 => jnode("bl", "", vec![jnode("sec", "i1", vec![]), jnode("sec", "i2", vec![leaf("p")])]),
+            2 => jnode("ol", "", vec![jnode("sec", "i1", vec![])]),
+            3 => jnode("quote", "", vec![leaf("q")]),
+            4 => jnode("sec", "sub", vec![leaf("p")]),
+            _ => jnode(*rng.pick(&["sec", "quote", "bl"]), "empty", vec![]),
+        };
+        before.push(b);
+    }
+    let mut inner = vec![];
+    for _ in 0..rng.range(0, 2) {
+        inner.push(if rng.chance(1, 2) { jnode("sec", "inl", vec![leaf("p")]) } else { leaf("p") });
+    }
+    let mut kids = before;
+    let mut doc = jnode("doc", "inl", inner);
+    if rng.chance(1, 2) { doc["id"] = json!(rng.below(50)); }
+    kids.push(doc);
+    if rng.chance(1, 2) { kids.push(leaf("after")); }
+    let holder = match rng.below(3) {
+        0 => jnode("sec", "holder", kids),
+        1 => jnode("bl", "", vec![jnode("sec", "item", kids)]),
+        _ => jnode("quote", "", kids),
+    };
+    jnode("doc", "t", vec![jnode("sec", "title", vec![holder])])
 }
 
 pub fn label(v: &Value) -> String {
